@@ -6,7 +6,7 @@ import ast
 from dataclasses import dataclass
 from typing import Dict, List, Optional, Tuple
 
-from ..common import guards_of
+from ..common import guards_of, norm_guards
 from ..loader import AnalysisError, FuncInfo, Program, walk_shallow
 
 HELPERS = ("parse_stream", "parse_async_stream")
@@ -92,7 +92,7 @@ def helper_effects(fn: FuncInfo) -> List[Effect]:
     def walk_block(body: List[ast.stmt]) -> None:
         for i, st in enumerate(body):
             gs = []
-            for g, pol in guards_of(st, fn.node):
+            for g, pol in norm_guards(st, fn.node):
                 t = _norm(ast.unparse(g))
                 gs.append(t if pol else f"not ({t})")
             gt = tuple(gs)
